@@ -264,7 +264,9 @@ func unmarshal(bytes []byte, s reflect.Value) error {
 
 			switch {
 			case t.Anonymous: // embedded structs
-				unmarshal(bytes, f)
+				if err := unmarshal(bytes, f); err != nil {
+					return err
+				}
 
 			case t.Type == tMsgType: // validate MsgType field
 				b := byte(f.Uint())
